@@ -22,8 +22,10 @@ type Config struct {
 	Compacts int          `json:"compacts"` // compaction rounds (compact mode)
 	Policy   sched.Policy `json:"policy"`
 	MaxSteps int          `json:"maxsteps"`
-	Chunked  bool         `json:"chunkq"` // readers use the chunk querier in half of their reads
-	Stride   int          `json:"stride"` // extra ticks between consecutive in-order samples (compact mode: fills block ranges faster)
+	Chunked  bool         `json:"chunkq"`            // readers use the chunk querier in half of their reads
+	Stride   int          `json:"stride"`            // extra ticks between consecutive in-order samples (compact mode: fills block ranges faster)
+	Hist     bool         `json:"hist,omitempty"`    // odd-numbered series carry integer native histograms (with counter resets)
+	Windows  bool         `json:"windows,omitempty"` // readers also query windows that start / end at or next to block boundaries
 }
 
 // Tx is one transaction of an appender task.
@@ -56,6 +58,8 @@ func Generate(prop, tier string, seed uint64) *Plan {
 		c.Stride = r.Range(0, 2)
 		c.NSeries = r.Range(2, 6)
 	}
+	c.Hist = r.Chance(0.5)
+	c.Windows = r.Chance(0.5)
 	c.Policy = sched.DrawPolicy(r, []string{"app", "reader", "compact", "tsdb."})
 	p := &Plan{Cfg: c}
 	napp := r.Range(2, 4)
@@ -150,5 +154,7 @@ func Shrink(p *Plan) []*Plan {
 		return v
 	})
 	add(func(q *Plan) bool { v := q.Cfg.Chunked; q.Cfg.Chunked = false; return v })
+	add(func(q *Plan) bool { v := q.Cfg.Hist; q.Cfg.Hist = false; return v })
+	add(func(q *Plan) bool { v := q.Cfg.Windows; q.Cfg.Windows = false; return v })
 	return out
 }
